@@ -1,9 +1,11 @@
 (* Proofs/C08Unique.v — the resolution relation is a function of the pack.
    The scanner announces strictly increasing offsets; on entries with distinct offsets, a
    store that files objects under their own ids and no id collision among the objects of
-   this pack and store, [Resolves] assigns at most one (type, content) to an offset. *)
+   this pack and store, [Resolves] assigns at most one (type, content, chain depth) to an
+   offset; hence the depth boundary: a pack with a chain of more than maxDeltaChainDepth
+   links is never accepted, whatever the order of the walk. *)
 From Coq Require Import List NArith ZArith Bool String Lia ZifyBool ZifyNat ZifyN.
-From GoGit Require Import Base.Out Base.GoInt Model.PackBytes Model.Idx Model.PackParse Proofs.C09.
+From GoGit Require Import Base.Out Base.GoInt Model.PackBytes Model.Idx Model.PackParse Proofs.C09 Proofs.C08.
 Import ListNotations.
 Local Open Scope N_scope.
 
@@ -64,7 +66,7 @@ Qed.
 
 (* objects of this pack and of the store *)
 Definition known (es : list ohdr) (ext : store) (t : otype) (c : bytes) : Prop :=
-  (exists off, Resolves es ext off t c) \/ (exists id, store_get ext id = Some (t, c)).
+  (exists off d, Resolves es ext off t c d) \/ (exists id, store_get ext id = Some (t, c)).
 
 (* no two of them share an id *)
 Definition no_collision (es : list ohdr) (ext : store) : Prop :=
@@ -75,33 +77,30 @@ Definition no_collision (es : list ohdr) (ext : store) : Prop :=
 Definition store_ok (ext : store) : Prop :=
   forall id t c, store_get ext id = Some (t, c) -> obj_id t (blen c) c = id.
 
-Theorem resolves_functional es ext :
+(* content first: REF deltas find their base by id, so its depth is not yet determined *)
+Lemma resolves_content es ext :
   NoDup (map oh_off es) -> store_ok ext -> no_collision es ext ->
-  forall off t c, Resolves es ext off t c ->
-  forall t' c', Resolves es ext off t' c' -> t = t' /\ c = c'.
+  forall off t c d, Resolves es ext off t c d ->
+  forall t' c' d', Resolves es ext off t' c' d' -> t = t' /\ c = c'.
 Proof.
-  intros Hnd Hst Hnc off t c R.
-  induction R as [e He Hb | e t c tsz out He Ht Rb IH Ha | e boff t c tsz out He Ht Rb IH Hid Ha | e t c tsz out He Ht Hg Ha];
-    intros t' c' R'.
-  - (* base *)
-    inversion R' as [e' He' Hb' Eo | e' t2 c2 tsz2 out2 He' Ht' Rb' Ha' Eo | e' boff2 t2 c2 tsz2 out2 He' Ht' Rb' Hid' Ha' Eo | e' t2 c2 tsz2 out2 He' Ht' Hg' Ha' Eo];
+  intros Hnd Hst Hnc off t c d R.
+  induction R as [e He Hb | e t c d tsz out He Ht Rb IH Ha | e boff t c d tsz out He Ht Rb IH Hid Ha | e t c tsz out He Ht Hg Ha];
+    intros t' c' d' R'.
+  - inversion R' as [e' He' Hb' Eo | e' t2 c2 d2 tsz2 out2 He' Ht' Rb' Ha' Eo | e' boff2 t2 c2 d2 tsz2 out2 He' Ht' Rb' Hid' Ha' Eo | e' t2 c2 tsz2 out2 He' Ht' Hg' Ha' Eo];
       subst; pose proof (same_offset es e' e Hnd He' He Eo) as ->; auto;
       rewrite Ht' in Hb; discriminate.
-  - (* OFS delta *)
-    inversion R' as [e' He' Hb' Eo | e' t2 c2 tsz2 out2 He' Ht' Rb' Ha' Eo | e' boff2 t2 c2 tsz2 out2 He' Ht' Rb' Hid' Ha' Eo | e' t2 c2 tsz2 out2 He' Ht' Hg' Ha' Eo];
+  - inversion R' as [e' He' Hb' Eo | e' t2 c2 d2 tsz2 out2 He' Ht' Rb' Ha' Eo | e' boff2 t2 c2 d2 tsz2 out2 He' Ht' Rb' Hid' Ha' Eo | e' t2 c2 tsz2 out2 He' Ht' Hg' Ha' Eo];
       subst; pose proof (same_offset es e' e Hnd He' He Eo) as ->; try congruence.
     + rewrite Ht in Hb'. discriminate.
-    + destruct (IH _ _ Rb') as [-> ->]. rewrite Ha in Ha'. inversion Ha'. auto.
-  - (* REF delta, base in the pack *)
-    inversion R' as [e' He' Hb' Eo | e' t2 c2 tsz2 out2 He' Ht' Rb' Ha' Eo | e' boff2 t2 c2 tsz2 out2 He' Ht' Rb' Hid' Ha' Eo | e' t2 c2 tsz2 out2 He' Ht' Hg' Ha' Eo];
+    + destruct (IH _ _ _ Rb') as [-> ->]. rewrite Ha in Ha'. inversion Ha'. auto.
+  - inversion R' as [e' He' Hb' Eo | e' t2 c2 d2 tsz2 out2 He' Ht' Rb' Ha' Eo | e' boff2 t2 c2 d2 tsz2 out2 He' Ht' Rb' Hid' Ha' Eo | e' t2 c2 tsz2 out2 He' Ht' Hg' Ha' Eo];
       subst; pose proof (same_offset es e' e Hnd He' He Eo) as ->; try congruence.
     + rewrite Ht in Hb'. discriminate.
     + destruct (Hnc t c t' c2) as [-> ->]; [left; eauto|left; eauto|congruence|].
       rewrite Ha in Ha'. inversion Ha'. auto.
     + destruct (Hnc t c t' c2) as [-> ->]; [left; eauto|right; eauto|rewrite (Hst _ _ _ Hg'); exact Hid|].
       rewrite Ha in Ha'. inversion Ha'. auto.
-  - (* REF delta, base in the store *)
-    inversion R' as [e' He' Hb' Eo | e' t2 c2 tsz2 out2 He' Ht' Rb' Ha' Eo | e' boff2 t2 c2 tsz2 out2 He' Ht' Rb' Hid' Ha' Eo | e' t2 c2 tsz2 out2 He' Ht' Hg' Ha' Eo];
+  - inversion R' as [e' He' Hb' Eo | e' t2 c2 d2 tsz2 out2 He' Ht' Rb' Ha' Eo | e' boff2 t2 c2 d2 tsz2 out2 He' Ht' Rb' Hid' Ha' Eo | e' t2 c2 tsz2 out2 He' Ht' Hg' Ha' Eo];
       subst; pose proof (same_offset es e' e Hnd He' He Eo) as ->; try congruence.
     + rewrite Ht in Hb'. discriminate.
     + destruct (Hnc t c t' c2) as [-> ->]; [right; eauto|left; eauto|rewrite (Hst _ _ _ Hg); now rewrite Hid'|].
@@ -109,4 +108,86 @@ Proof.
     + rewrite Hg in Hg'. inversion Hg'; subst. rewrite Ha in Ha'. inversion Ha'. auto.
 Qed.
 
+Theorem resolves_functional es ext :
+  NoDup (map oh_off es) -> store_ok ext -> no_collision es ext ->
+  forall off t c d, Resolves es ext off t c d ->
+  forall t' c' d', Resolves es ext off t' c' d' -> t = t' /\ c = c'.
+Proof. exact (resolves_content es ext). Qed.
+
+(* ---- the depth boundary ---- *)
+
+(* the entry a resolved offset belongs to *)
+Lemma resolves_entry es ext off t c d : Resolves es ext off t c d -> exists e, In e es /\ oh_off e = off.
+Proof. intros R; inversion R; subst; eauto. Qed.
+
+(* the chain under an OFS-only offset has one length: for chains made of OFS links (what git writes
+   by default) no assumption on ids is needed *)
+Inductive OfsChain (es : list ohdr) : N -> N -> Prop :=
+| C_base e : In e es -> is_delta (oh_type e) = false -> OfsChain es (oh_off e) 0
+| C_ofs e d : In e es -> oh_type e = TOfs -> OfsChain es (oh_base_off e) d -> OfsChain es (oh_off e) (d + 1).
+
+Lemma ofs_chain_depth es ext : NoDup (map oh_off es) ->
+  forall off n, OfsChain es off n -> forall t c d, Resolves es ext off t c d -> d = n.
+Proof.
+  intros Hnd off n C. induction C as [e He Hb | e n He Ht C IH]; intros t c d R.
+  - inversion R as [e' He' Hb' Eo | e' t2 c2 d2 tsz2 out2 He' Ht' Rb' Ha' Eo | e' boff2 t2 c2 d2 tsz2 out2 He' Ht' Rb' Hid' Ha' Eo | e' t2 c2 tsz2 out2 He' Ht' Hg' Ha' Eo];
+      subst; pose proof (same_offset es e' e Hnd He' He Eo) as ->; auto; rewrite Ht' in Hb; discriminate.
+  - inversion R as [e' He' Hb' Eo | e' t2 c2 d2 tsz2 out2 He' Ht' Rb' Ha' Eo | e' boff2 t2 c2 d2 tsz2 out2 He' Ht' Rb' Hid' Ha' Eo | e' t2 c2 tsz2 out2 He' Ht' Hg' Ha' Eo];
+      subst; pose proof (same_offset es e' e Hnd He' He Eo) as ->; try congruence.
+    + rewrite Ht in Hb'. discriminate.
+    + f_equal. eapply IH; eauto.
+Qed.
+
+(* accepted packs: every object's recorded depth is within the bound, so an offset whose chain is longer
+   cannot belong to an accepted pack *)
+Theorem deep_chain_rejected ext pack es sum off n :
+  scan_pack hs Hsz inflate crc32 pack = Some (es, sum) ->
+  OfsChain es off n -> MAX_DEPTH < n ->
+  parse hs Hsz inflate crc32 ext pack = None.
+Proof.
+  intros Es C Hn. destruct (parse hs Hsz inflate crc32 ext pack) as [[objs sm]|] eqn:Ep; [|reflexivity]. exfalso.
+  pose proof (scan_pack_offsets _ _ _ Es) as Hnd.
+  unfold parse in Ep. rewrite Es in Ep.
+  destruct (resolve hs Hsz ext es) as [s|] eqn:Er; [|discriminate].
+  assert (He : exists e, In e es /\ oh_off e = off) by (inversion C; subst; eauto).
+  destruct He as (e & He & Eo).
+  destruct (resolve_complete hs Hsz ext es s Er e He) as (o & Ho & Eoff).
+  pose proof (scan_pack_wellformed hs Hsz inflate crc32 pack es sum Es) as (_ & _ & Hok & _).
+  destruct (resolve_inv hs Hsz inflate crc32 ext es s Hok Er) as [Ig _].
+  rewrite Forall_forall in Ig. destruct (Ig o Ho) as (_ & _ & Hd & R).
+  rewrite Eoff, Eo in R. pose proof (ofs_chain_depth es ext Hnd off n C _ _ _ R) as E. lia.
+Qed.
+
+(* one link: with the parent at depth pd the delta is taken iff pd + 1 <= maxDeltaChainDepth
+   (so the link that completes a chain of exactly maxDeltaChainDepth is taken, the next one is not) *)
+Lemma process_delta_ofs_depth ext s d p :
+  oh_type d = TOfs -> by_offset s (oh_base_off d) = Some p ->
+  (MAX_DEPTH < r_depth p + 1 -> process_delta hs Hsz ext s d = None) /\
+  (r_depth p + 1 <= MAX_DEPTH -> oh_data d <> [] ->
+   forall tsz out, apply_delta (r_content p) (oh_data d) = Some (tsz, out) ->
+   exists s' o, process_delta hs Hsz ext s d = Some s' /\ by_offset s' (oh_off d) = Some o /\
+                r_depth o = r_depth p + 1 /\ r_content o = out).
+Proof.
+  intros Ht Ep. unfold process_delta. rewrite Ht, Ep, (chain_depth_spec hs Hsz). split.
+  - intros Hd. replace (r_depth p + 1 <=? MAX_DEPTH) with false by lia. reflexivity.
+  - intros Hd Hne tsz out Ea. replace (r_depth p + 1 <=? MAX_DEPTH) with true by lia.
+    destruct (oh_data d) as [|x dd] eqn:Edata; [congruence|]. first [rewrite Ea | rewrite <- Edata, Ea].
+    eexists. eexists. split; [reflexivity|]. unfold by_offset. cbn [p_oi find r_off].
+    rewrite N.eqb_refl. repeat split; reflexivity.
+Qed.
+
 End Unique.
+
+(* the link-by-link walk of a chain of n links (the boundary cases of the suite): accepted iff n <= maxDeltaChainDepth *)
+Lemma chain_walk_from : forall n pd, pd <= MAX_DEPTH ->
+  chain_walk n pd = if pd + N.of_nat n <=? MAX_DEPTH then Some (pd + N.of_nat n) else None.
+Proof.
+  induction n as [|n IH]; intros pd Hpd; cbn [chain_walk].
+  - rewrite N.add_0_r. replace (pd <=? MAX_DEPTH) with true by lia. reflexivity.
+  - rewrite (chain_depth_spec 0%nat (fun _ b => b)). destruct (pd + 1 <=? MAX_DEPTH) eqn:E.
+    + rewrite IH by lia. replace (pd + 1 + N.of_nat n) with (pd + N.of_nat (S n)) by lia. reflexivity.
+    + replace (pd + N.of_nat (S n) <=? MAX_DEPTH) with false by lia. reflexivity.
+Qed.
+
+Lemma chain_walk_spec n : chain_walk n 0 = if N.of_nat n <=? MAX_DEPTH then Some (N.of_nat n) else None.
+Proof. rewrite chain_walk_from by (unfold MAX_DEPTH; cbn; lia). reflexivity. Qed.
